@@ -137,6 +137,15 @@ def run(ctx):
     ex = exhaustive_cases(3 if thorough else 2)
     for k in (0, 1):
         vlib.correspondence(ctx, OPTS[k] + '_exhaustive_len%d' % (3 if thorough else 2), [exes['hST%d' % k]], drv, ex, keep_prefix=1, oracle=stref.oracle, valid=stref.valid)
+    # release builds (-O2 -DNDEBUG: GUDHI_CHECK and assert compiled out) of three option sets
+    src_ = os.path.join(vlib.VERIF, 'harness', 'hST.cpp')
+    rk = [0, 1, 5] if not thorough else list(OPTS)
+    rexes, rerrs = vlib.build_many(ctx, [dict(name='hST%d_rel' % k, src=src_, defines=['OPTN=%d' % k, 'NDEBUG'], opt='-O2') for k in rk])
+    for k in rk:
+        e = rexes.get('hST%d_rel' % k)
+        if not e: ctx.notes.append('release build failed for ' + OPTS[k]); continue
+        cases = [gen_case(ctx.rng, contig=k in CONTIG, zero=k in ZERO, maxlen=30 if thorough else 14) for _ in range(n)]
+        vlib.correspondence(ctx, OPTS[k] + '_release', [e], drv, cases, nontrivial=nontriv, keep_prefix=2 if k in CONTIG else 1, oracle=stref.oracle, valid=stref.valid_contig if k in CONTIG else stref.valid)
     if thorough:
         sexes, errs = vlib.build_many(ctx, specs(True))
         for k, name in OPTS.items():
@@ -148,8 +157,9 @@ def run(ctx):
 
 
 def replay_cmds(ctx, rp):
-    name = rp.get('stream', 'default').split('_exhaustive')[0].split('_asan')[0]
+    stream = rp.get('stream', 'default'); rel = stream.endswith('_release')
+    name = stream.split('_exhaustive')[0].split('_asan')[0].replace('_release', '')
     k = [a for a, b in OPTS.items() if b == name][0]
-    exe, err = vlib.build_harness(ctx, 'hST%d' % k, os.path.join(vlib.VERIF, 'harness', 'hST.cpp'), defines=['OPTN=%d' % k])
+    exe, err = vlib.build_harness(ctx, 'hST%d' % k + ('_rel' if rel else ''), os.path.join(vlib.VERIF, 'harness', 'hST.cpp'), defines=['OPTN=%d' % k] + (['NDEBUG'] if rel else []), opt='-O2' if rel else '-O1')
     if exe is None: return None
     return [exe], [vlib.driver_path(), 'ST']
